@@ -68,7 +68,8 @@ def header_for(sizes, variant):
         p = os.path.join(d, 'h.h')
         cheader.write_header(p, [('01040000', 'x', [])], field_names(sizes, variant),
                              static=bool(variant & 1), brace_same_line=bool(variant & 2),
-                             end_line='  }  ;  ' if variant & 16 else '};', decoy=bool(variant & 16))
+                             end_line='  }  ;  ' if variant & 16 else '};', decoy=bool(variant & 16),
+                             decoy_before=bool(variant & 2))
         _files[key] = p
     return _files[key]
 
